@@ -226,16 +226,20 @@ Section CoversMain.
         * subst oneo. destruct Hs as (Hri & d & Hd & _). eapply go_ref; [exact Hd|reflexivity|]. apply mem_pair_ref. exact Hri.
         * subst oneo. apply go_json. exact Hs.
         * (* an externally tagged oneOf *)
-          destruct (one_kind_external bs tg Hok) as (-> & names0 & Hn0 & _).
+          assert (Htg : tg = TagExternal).
+          { clear - Hf. cbn [frag_kind] in Hf. apply andb_true_iff in Hf. destruct Hf as [_ Hp].
+            destruct tg; try discriminate Hp. reflexivity. }
+          subst tg.
           destruct Hs as (n & vs & deny & bes & names & ids & Hd & Hnames & Hndn & Hv & Hraw & Hident & Hbr).
-          cbn [frag_kind] in Hf. rewrite Hnames in Hf.
+          cbn [frag_kind variant_names] in Hf. rewrite Hnames in Hf.
+          apply andb_true_iff in Hf. destruct Hf as [Hf _].
           apply andb_true_iff in Hf. destruct Hf as [Hf Hfrs]. apply andb_true_iff in Hf. destruct Hf as [_ Hpay].
           eapply go_union; [exact Hd|reflexivity|reflexivity|]. cbn [union_ok].
           apply forallb_forall. intros b Hb.
           pose proof (proj1 (AllP_In _ _) Hbr b Hb) as Hbsh.
           assert (Hndv : NoDup (map v_raw vs)) by (rewrite Hraw; exact Hndn).
           cbn [OForall] in IHone. rewrite Forall_forall in IHone. pose proof (IHone b Hb) as IHb.
-          assert (Hfb : one_fold (fun v sc => frag cls keys sc) true b = true).
+          assert (Hfb : branch_fold cls TagExternal (NRequired []) (fun sc _ => frag cls keys sc) andb true b = true).
           { clear - Hfrs Hb. induction bs as [|b0 r IH]; [destruct Hb|].
             rewrite one_frags_cons in Hfrs. apply andb_true_iff in Hfrs. destruct Hfrs as [H1 H2].
             destruct Hb as [<-|Hb]; [exact H1|exact (IH H2 Hb)]. }
@@ -253,7 +257,7 @@ Section CoversMain.
              apply orb_true_iff. right. unfold mem_ustr. cbn [existsb]. rewrite ustr_eqb_refl. cbn [orb andb].
              cbn [branch_sh xbranch] in Hbsh. destruct Hbsh as (vr & Hvr & Hrw & Hpsh).
              destruct (find_variant_nodup vs Hndv vr 0%nat Hvr) as (i & Hfv). rewrite Hrw in Hfv. rewrite Hfv.
-             cbn [one_fold xbranch] in Hfb.
+             cbn [branch_fold xbranch] in Hfb.
              destruct (IHb v sc (xtyped_sch v sc)) as [HCsc HCPsc].
              unfold payload_ok. destruct (v_det vr) as [|t'|ts|ps]; cbn [payload_sh] in Hpsh.
              ++ contradiction.
